@@ -46,6 +46,14 @@ def parse_fmt(fmt):
     return out
 
 
+def struct_literal(e):
+    """format of `struct.Struct("<literal>")`, else None"""
+    if isinstance(e, ast.Call) and ast.unparse(e.func) == 'struct.Struct' and len(e.args) == 1 \
+            and isinstance(e.args[0], ast.Constant) and isinstance(e.args[0].value, str):
+        return e.args[0].value
+    return None
+
+
 def U(e):
     return ast.unparse(e)
 
@@ -72,11 +80,19 @@ class Modules:
         self.order = []
         self.consts = {}
         self.trees = {}
+        self.structs = {}      # module-level NAME = struct.Struct("<literal>")  ->  format
+        self.functions = {}    # module-level def name -> FunctionDef
         for mod, rel in (("libopenflow_01", "pox/openflow/libopenflow_01.py"), ("nicira", "pox/openflow/nicira.py")):
             src = open(os.path.join(repo, rel)).read()
             tree = ast.parse(src)
             self.trees[mod] = tree
             for node in tree.body:
+                if isinstance(node, ast.FunctionDef):
+                    self.functions.setdefault(node.name, node)
+                if isinstance(node, ast.Assign) and len(node.targets) == 1 and isinstance(node.targets[0], ast.Name):
+                    fmt = struct_literal(node.value)
+                    if fmt is not None:
+                        self.structs[node.targets[0].id] = fmt; continue
                 if isinstance(node, ast.ClassDef):
                     if node.name not in self.classes:
                         self.classes[node.name] = (mod, node)
@@ -117,6 +133,35 @@ class Modules:
     def cls(self, name):
         name = strip_of(name)
         return self.classes.get(name)
+
+    def struct_fmt(self, e, clsname=None):
+        """format of an expression that names a precompiled struct.Struct: a module-level name, `of.NAME`, or a class
+        attribute reached as `self.NAME` / `Cls.NAME`"""
+        if isinstance(e, ast.Name): return self.structs.get(e.id)
+        if isinstance(e, ast.Attribute) and isinstance(e.value, ast.Name):
+            base = e.value.id
+            if base == 'of': return self.structs.get(e.attr)
+            owner = clsname if base in ('self', 'cls') else (base if self.cls(base) else None)
+            if owner:
+                v = self.class_attr(owner, e.attr)
+                if v is not None: return struct_literal(v)
+        return None
+
+    def wrapper(self, fname):
+        """a private module-level helper that only wraps a struct read, like `_unpack(fmt, data, offset)`:
+        returns ('fmt'|'struct', index of that parameter) when its result is `(offset + size, <…>.unpack_from(data, offset))`"""
+        fn = self.functions.get(strip_of(fname))
+        if fn is None: return None
+        params = [a.arg for a in fn.args.args]
+        for n in ast.walk(fn):
+            if isinstance(n, ast.Return) and isinstance(n.value, ast.Tuple) and len(n.value.elts) == 2:
+                c = n.value.elts[1]
+                if isinstance(c, ast.Call) and isinstance(c.func, ast.Attribute) and c.func.attr == 'unpack_from':
+                    if U(c.func.value) == 'struct' and c.args and isinstance(c.args[0], ast.Name) and c.args[0].id in params:
+                        return ('fmt', params.index(c.args[0].id))
+                    if isinstance(c.func.value, ast.Name) and c.func.value.id in params:
+                        return ('struct', params.index(c.func.value.id))
+        return None
 
     def bases(self, name):
         ent = self.cls(name)
@@ -229,7 +274,12 @@ class Reader:
         return base
 
     def ieval(self, e):
-        """integer expression with len(Class) and len(self.<fixed sub-structure>) allowed"""
+        """integer expression with len(Class), len(self.<fixed sub-structure>) and <Struct>.size allowed"""
+        if isinstance(e, ast.Attribute) and e.attr == 'size':
+            fmt = self.m.struct_fmt(e.value, self.cls)
+            if fmt is not None:
+                import struct as _struct
+                return _struct.calcsize(fmt)
         if isinstance(e, ast.Call) and U(e.func) == 'len' and len(e.args) == 1:
             a = e.args[0]
             sa = self_attr(a)
@@ -351,11 +401,17 @@ class Reader:
             if len(at) == 1: return [('blob', at[0], 6)]
         if isinstance(e, ast.Call):
             f = U(e.func)
-            if f == 'struct.pack':
-                if not (e.args and isinstance(e.args[0], ast.Constant) and isinstance(e.args[0].value, str)):
+            sfmt = None
+            if isinstance(e.func, ast.Attribute) and e.func.attr == 'pack':
+                sfmt = self.m.struct_fmt(e.func.value, self.cls)          # <precompiled Struct>.pack(values…)
+            if isinstance(e.func, ast.Attribute) and e.func.attr == 'join' and isinstance(e.func.value, ast.Constant) \
+                    and e.func.value.value == b'' and len(e.args) == 1:
+                return self.join_arg(e.args[0], env)                      # b"".join(parts): concatenation
+            if f == 'struct.pack' or sfmt is not None:
+                if sfmt is None and not (e.args and isinstance(e.args[0], ast.Constant) and isinstance(e.args[0].value, str)):
                     raise Irregular("struct.pack with computed format")
-                ws = [x for x in parse_fmt(e.args[0].value)]
-                args = e.args[1:]
+                ws = [x for x in parse_fmt(sfmt if sfmt is not None else e.args[0].value)]
+                args = e.args if sfmt is not None else e.args[1:]
                 out = []
                 ai = 0
                 for kind, w in ws:
@@ -395,6 +451,53 @@ class Reader:
             return [('tail', ('rest', ALIAS.get(norm_attr(sa), norm_attr(sa))))]
         raise Irregular("appended expression " + u)
 
+    def gen_list_tail(self, g):
+        """`x.pack() for x in self.xs` -> list tail over self.xs"""
+        if isinstance(g, (ast.GeneratorExp, ast.ListComp)) and len(g.generators) == 1 and not g.generators[0].ifs:
+            c = g.generators[0]
+            if isinstance(c.target, ast.Name) and U(g.elt) == c.target.id + '.pack()' and self_attr(c.iter):
+                return [('tail', ('list', norm_attr(self_attr(c.iter))))]
+        return None
+
+    def join_arg(self, a, env):
+        """the argument of b"".join(...): a tuple/list display, a generator over a list attribute, or a list local"""
+        if isinstance(a, (ast.Tuple, ast.List)):
+            out = []
+            for x in a.elts: out += self.bytes_expr(x, env)
+            return out
+        g = self.gen_list_tail(a)
+        if g is not None: return g
+        if isinstance(a, ast.Name) and a.id in env['lists']:
+            env['used'].add(a.id)
+            return list(env['bytes'][a.id])
+        raise Irregular("join of " + U(a))
+
+    def list_stmt(self, s, env):
+        """statements that build a list of byte strings to be joined: parts = [..]; parts.append(x); parts.extend(..);
+        parts += [..]   -> True when handled"""
+        if isinstance(s, ast.Assign) and len(s.targets) == 1 and isinstance(s.targets[0], ast.Name) and isinstance(s.value, ast.List):
+            out = []
+            for x in s.value.elts: out += self.bytes_expr(x, env)
+            env['bytes'][s.targets[0].id] = out; env['lists'].add(s.targets[0].id)
+            return True
+        if isinstance(s, ast.AugAssign) and isinstance(s.target, ast.Name) and s.target.id in env['lists'] \
+                and isinstance(s.op, ast.Add) and isinstance(s.value, (ast.List, ast.Tuple)):
+            for x in s.value.elts: env['bytes'][s.target.id] += self.bytes_expr(x, env)
+            return True
+        if isinstance(s, ast.Expr) and isinstance(s.value, ast.Call) and isinstance(s.value.func, ast.Attribute) \
+                and isinstance(s.value.func.value, ast.Name) and s.value.func.value.id in env['lists'] and len(s.value.args) == 1:
+            nm, meth, a = s.value.func.value.id, s.value.func.attr, s.value.args[0]
+            if meth == 'append':
+                env['bytes'][nm] += self.bytes_expr(a, env); return True
+            if meth == 'extend':
+                g = self.gen_list_tail(a)
+                if g is not None:
+                    env['bytes'][nm] += g; return True
+                if isinstance(a, (ast.List, ast.Tuple)):
+                    for x in a.elts: env['bytes'][nm] += self.bytes_expr(x, env)
+                    return True
+        return False
+
     def blob_branch(self, s):
         """if isinstance(self.x, bytes|EthAddr): acc += self.x  else: acc += self.x.toRaw()  -> attr
            (also the three-way form of ofp_match: None -> EMPTY_ETH.toRaw(), bytes -> as is, else -> .toRaw())"""
@@ -420,7 +523,7 @@ class Reader:
         return None
 
     def read_pack_fn(self, fn, label):
-        env = {'bytes': {}, 'assigns': {}, 'lenbase': [], 'used': set()}
+        env = {'bytes': {}, 'assigns': {}, 'lenbase': [], 'used': set(), 'lists': set()}
         for s in ast.walk(fn):
             if isinstance(s, ast.Assign) and len(s.targets) == 1 and isinstance(s.targets[0], ast.Name):
                 env['assigns'].setdefault(s.targets[0].id, []).append(s.value)
@@ -431,6 +534,7 @@ class Reader:
             if isinstance(s, ast.Assert): continue
             if isinstance(s, ast.FunctionDef): continue                      # local helper functions (ofp_match.pack)
             touches = any(isinstance(n, ast.Name) and n.id in env['bytes'] for n in ast.walk(s))
+            if self.list_stmt(s, env): continue
             if isinstance(s, ast.Assign) and len(s.targets) == 1 and isinstance(s.targets[0], ast.Name):
                 t = s.targets[0].id
                 try:
@@ -520,9 +624,23 @@ class Reader:
                 if isinstance(t, ast.Name) and U(v) == 'offset': continue            # _offset = offset
                 if isinstance(v, ast.Call):
                     f = strip_of(U(v.func))
-                    if f == '_unpack' and isinstance(t, ast.Tuple) and len(t.elts) == 2:
-                        ws = parse_fmt(v.args[0].value)
-                        tg = t.elts[1]
+                    # (a, b, c) = <Struct>.unpack_from(raw, offset)   /   struct.unpack_from("<fmt>", raw, offset)
+                    dfmt = None
+                    if isinstance(v.func, ast.Attribute) and v.func.attr in ('unpack_from', 'unpack') and isinstance(t, ast.Tuple):
+                        if U(v.func.value) == 'struct' and v.args and isinstance(v.args[0], ast.Constant):
+                            dfmt = v.args[0].value
+                        else:
+                            dfmt = self.m.struct_fmt(v.func.value, self.cls)
+                    wr = self.m.wrapper(f) if isinstance(v.func, (ast.Name, ast.Attribute)) and f != '_read' else None
+                    wfmt = None
+                    if wr and isinstance(t, ast.Tuple) and len(t.elts) == 2 and len(v.args) > wr[1]:
+                        a0 = v.args[wr[1]]
+                        wfmt = (a0.value if isinstance(a0, ast.Constant) and isinstance(a0.value, str) else None) if wr[0] == 'fmt' \
+                            else self.m.struct_fmt(a0, self.cls)
+                        if wfmt is None: raise Irregular("%s: format of %s is not a literal" % (label, u.split('\n')[0][:60]))
+                    if dfmt is not None or wfmt is not None:
+                        ws = parse_fmt(dfmt if dfmt is not None else wfmt)
+                        tg = t if dfmt is not None else t.elts[1]
                         if isinstance(tg, ast.Name):
                             st['tuples'][tg.id] = len(pieces)
                             for i, (k, w) in enumerate(ws):
@@ -622,13 +740,20 @@ class Reader:
                 if isinstance(rv, ast.Tuple) and len(rv.elts) == 2 and isinstance(rv.elts[1], ast.Name):
                     st['ret_len'] = rv.elts[1].id
                     st['locals_used_len'].add(rv.elts[1].id)
+                elif isinstance(rv, ast.Call) and isinstance(rv.func, ast.Attribute) and self_attr(rv.func) is not None \
+                        and rv.func.attr == '_unpack_header' and self.m.method(self.cls, rv.func.attr):
+                    # `return self._unpack_header(raw, offset)`: the callee's (offset, length) is the result
+                    sub, sst = self.read_unpack_fn(self.m.method(self.cls, rv.func.attr)[1], rv.func.attr)
+                    pieces += sub
+                    if sst['ret_len']:
+                        st['ret_len'] = sst['ret_len']; st['locals_used_len'].add(sst['ret_len'])
                 break
             if isinstance(s, ast.If):
                 t = U(s.test)
                 if t == 'avail is None': continue                               # `RuntimeError(...)` without raise: no effect
                 if t.startswith('self._collect_raw'): continue
-                if 'avail' in t and all(isinstance(x, ast.Raise) for x in s.body) and not s.orelse:
-                    continue                                                     # `if avail != 0: raise`: a check, reads nothing
+                if all(isinstance(x, ast.Raise) for x in s.body) and not s.orelse and not any(self_attr(n) for n in ast.walk(s.test)):
+                    continue                            # `if avail != 0: raise`, `if len(raw)-offset < size: raise`: a check, reads nothing
             if "dispatch-on-body" in self.flags and not any(isinstance(n, ast.Name) and n.id == 'offset' and isinstance(n.ctx, ast.Store) for n in ast.walk(s)):
                 continue
             lp = self.loop_pattern(s, st)
